@@ -191,21 +191,7 @@ theorem applyPair_safe (st : St) (a p : Nat) (g1 g2 : Glyph) (pa : PairAdj)
     intro g2' _ _
     exact hst
 
-theorem findBase_some (cov : Cov) : ∀ (l : List Glyph) (acc : Int) (bi : Nat) (s : Int),
-    findBase cov l acc = some (bi, s) → ∃ g, covGet cov g = some bi := by
-  intro l
-  induction l with
-  | nil => intro acc bi s h; simp [findBase] at h
-  | cons g rest ih =>
-    intro acc bi s h
-    simp only [findBase] at h
-    split at h
-    · rename_i i hi
-      injection h with h; injection h with h1 h2; subst h1
-      exact ⟨_, hi⟩
-    · exact ih _ _ _ h
-
-theorem applyMark_safe (add : Bool) (st : St) (a : Nat) (markCov baseCov : Cov) (marks : List MarkRec)
+theorem applyMark_safe (add : Nat → Bool) (st : St) (a : Nat) (markCov baseCov : Cov) (marks : List MarkRec)
     (bases : List (List Anchor)) (hm : covBelow markCov marks.length = true)
     (hb : covBelow baseCov bases.length = true) (ha : a < st.seq.length) (hst : st.stack = []) :
     Safe StackNil (applyMark add st a markCov baseCov marks bases) := by
@@ -221,15 +207,16 @@ theorem applyMark_safe (add : Bool) (st : St) (a : Nat) (markCov baseCov : Cov) 
     · trivial
     · split
       · trivial
-      · rename_i bi advs hfb
-        obtain ⟨g0, hg0⟩ := findBase_some _ _ _ _ _ hfb
-        refine Safe.bind (idx_safe (covBelow_lt hb hg0)) ?_
-        intro row _ _
-        split
+      · split
         · trivial
-        · split
+        · rename_i bi hbi
+          refine Safe.bind (idx_safe (covBelow_lt hb hbi)) ?_
+          intro row _ _
+          split
           · trivial
-          · exact hst
+          · split
+            · trivial
+            · exact hst
 
 theorem applySub_safe (kp : Nat → Bool) (st : St) (a : Nat) (s : Subtable)
     (hg : s.guarded = true) (hs : s.contextual = false) (ha : a < st.seq.length) (hst : st.stack = []) :
@@ -419,14 +406,14 @@ theorem applySub_safe (kp : Nat → Bool) (st : St) (a : Nat) (s : Subtable)
           · trivial
         · intro ad _ _
           exact hst
-  | gpos41 markCov baseCov marks bases =>
+  | gpos41 markCov baseCov marks bases gclass =>
     simp only [Subtable.guarded, Bool.and_eq_true] at hg
     simp only [applySub]
-    exact applyMark_safe true st a _ _ _ _ hg.1 hg.2 ha hst
+    exact applyMark_safe _ st a _ _ _ _ hg.1 hg.2 ha hst
   | gpos61 markCov baseCov marks bases =>
     simp only [Subtable.guarded, Bool.and_eq_true] at hg
     simp only [applySub]
-    exact applyMark_safe false st a _ _ _ _ hg.1 hg.2 ha hst
+    exact applyMark_safe _ st a _ _ _ _ hg.1 hg.2 ha hst
 
 theorem applyAt_safe (kp : Nat → Bool) (st : St) (a : Nat) (ha : a < st.seq.length) (hst : st.stack = []) :
     ∀ (ss : List Subtable), (ss.all Subtable.guarded = true) → (ss.all (fun s => !s.contextual) = true) →
